@@ -1424,9 +1424,9 @@ def s_any_all(kind):
 def s_variant_map(kind):
     """Result::map / map_err / and_then, Option::map / and_then: the closure is applied to the payload of the matching variant, the other variant passes through"""
     def h(I_, st, path, c, args, t, depth):
-        ty = (t.get("atys") or [""])[0]
+        ty = (t.get("atys") or [""])[0].lstrip("&").replace("mut ", "", 1).strip()
         out = []
-        for (s2, v) in I_.fork_variants(st, args[0], ty):
+        for (s2, v) in I_.fork_variants(st, _target(I_, st, args[0]), ty):
             if not (v[0] == "adt" and v[2] in ("Ok", "Err", "Some", "None")):
                 return None
             hit = {"map": ("Ok", "Some"), "map_err": ("Err",), "and_then": ("Ok", "Some")}[kind]
@@ -1454,9 +1454,9 @@ def s_option_or(kind):
     """Option::unwrap_or / unwrap_or_else / unwrap_or_default / map_or / map_or_else / ok_or / ok_or_else / is_some_and / is_none_or,
     Result::unwrap_or / unwrap_or_else / ok / err / is_ok_and / is_err_and : decided per variant (fork when the variant is unknown)"""
     def h(I_, st, path, c, args, t, depth):
-        ty = (t.get("atys") or [""])[0]
+        ty = (t.get("atys") or [""])[0].lstrip("&").replace("mut ", "", 1).strip()
         out = []
-        for (s2, v) in I_.fork_variants(st, args[0], ty):
+        for (s2, v) in I_.fork_variants(st, _target(I_, st, args[0]), ty):
             if not (v[0] == "adt" and v[2] in ("Ok", "Err", "Some", "None")):
                 return None
             present = v[2] in ("Some", "Ok")
@@ -1687,6 +1687,9 @@ SUMMARIES = [(re.compile(rx), h) for rx, h in [
     (r"(option::Option::<T>|result::Result::<T, E>)::map_or$", s_option_or("map_or")), (r"(option::Option::<T>|result::Result::<T, E>)::map_or_else$", s_option_or("map_or_else")),
     (r"option::Option::<T>::ok_or$", s_option_or("ok_or")), (r"option::Option::<T>::ok_or_else$", s_option_or("ok_or_else")),
     (r"result::Result::<T, E>::ok$", s_option_or("ok")), (r"result::Result::<T, E>::err$", s_option_or("err")),
+    (r"option::Option::<T>::is_some$", s_option_or("is_some")), (r"option::Option::<T>::is_none$", s_option_or("is_none")),
+    (r"result::Result::<T, E>::is_ok$", s_option_or("is_ok")), (r"result::Result::<T, E>::is_err$", s_option_or("is_err")),
+    (r"option::Option::<&T>::(copied|cloned)$|option::Option::<&mut T>::(copied|cloned)$|option::Option::<T>::(copied|cloned)$", s_identity),
     (r"option::Option::<T>::is_some_and$", s_option_or("is_some_and")), (r"result::Result::<T, E>::is_ok_and$", s_option_or("is_ok_and")), (r"option::Option::<T>::is_none_or$", s_option_or("is_none_or")),
     (r"cmp::Ordering::(is_lt)$", s_ordering_is("is_lt")), (r"cmp::Ordering::(is_le)$", s_ordering_is("is_le")), (r"cmp::Ordering::(is_gt)$", s_ordering_is("is_gt")),
     (r"cmp::Ordering::(is_ge)$", s_ordering_is("is_ge")), (r"cmp::Ordering::(is_eq)$", s_ordering_is("is_eq")), (r"cmp::Ordering::(is_ne)$", s_ordering_is("is_ne")),
